@@ -7,7 +7,7 @@
 //!       (0 = everything) and fails every call with index >= <fail> (`err`: Err, `zero`: Ok(0)).
 //!       reply  `<ok|err|panic> calls=<n> accepted=<bytes>`   (pw: `<ok|err|panic> ## calls=.. accepted=..`)
 //!   c13 path <kind> <wb> <size> <oldn> <fault>
-//!       kind = xlsx|light|csv|pw|pwlight|setpw ; fault = none|devfull|limit:<k>|createfail|renamefail
+//!       kind = xlsx|light|csv|pw|pwlight|setpw ; fault = none|devfull|limit:<k>|stale:<k>|createfail|renamefail
 //!       runs the save in a child process; reply `<ok|err|panic> dest=<old|new|other> tmp=<absent|left>`
 //!   c13 kill <n> <seed>     n SIGKILLs at random instants (exploration only); reply `ok ## ...`
 //!
@@ -451,6 +451,13 @@ pub fn gen(out: &Out, tier: Tier, _seed: u64) -> Vec<String> {
             for k in [0u64, 1, size / 2, size.saturating_sub(1), size, size + 1] {
                 v.push(format!("c13 path {} {} {} absent limit:{}", kind, wb, size, k));
             }
+            // a regular file left at the temp name by an earlier save that was killed, longer or shorter than the
+            // new output: the save must replace it entirely (File::create truncates), nothing of it may reach the
+            // destination
+            for k in [1u64, size + 1, 2 * size + 100_000] {
+                v.push(format!("c13 path {} {} {} 37 stale:{}", kind, wb, size, k));
+                v.push(format!("c13 path {} {} {} absent stale:{}", kind, wb, size, k));
+            }
             // RLIMIT_FSIZE = k
             let step: u64 = if slow {
                 if thorough { 512 } else { (size / 6).max(1) }
@@ -572,6 +579,7 @@ fn exec_path(out: &mut Out, line: &str, t: &[&str]) -> (String, bool) {
     match fault {
         "devfull" => std::os::unix::fs::symlink("/dev/full", &tmp).unwrap(),
         "createfail" => fs::create_dir_all(tmp.join("keep")).unwrap(),
+        f if f.starts_with("stale:") => fs::write(&tmp, vec![0xEEu8; f[6..].parse::<usize>().unwrap_or(0)]).unwrap(),
         f if f.starts_with("limit:") => limit = f[6..].to_string(),
         _ => {}
     }
